@@ -400,6 +400,11 @@ func (r *runner) listen(name string) {
 			nc.Close()
 			return
 		}
+		if rh.InfoHash != r.tor.InfoHash {
+			T.Emit(vh.Ev{"ev": "stray", "what": "peer-connection"})
+			nc.Close()
+			return
+		}
 		who := r.who(rh.PeerID)
 		T.Emit(vh.Ev{"ev": "dial", "src": src, "lst": name, "who": who, "hs": 1})
 		if who != "t1" {
@@ -507,6 +512,9 @@ func (r *runner) step(st Step) {
 		time.Sleep(60 * time.Millisecond)
 	case "addtracker":
 		trk2, err := vh.StartHTTPTracker(nil, "trk2", func(q vh.AnnReq) vh.AnnReply {
+			if q.InfoHash != hex.EncodeToString(r.tor.InfoHash[:]) {
+				return vh.AnnReply{Failure: "unknown torrent"}
+			}
 			T.Emit(vh.Ev{"ev": "ident", "what": "ua", "where": "trk2", "cls": identClass(q.UA, privUA, torrent.DefaultConfig.TrackerHTTPPrivateUserAgent), "val": q.UA})
 			return vh.AnnReply{Interval: vh.I64(1800)}
 		})
@@ -671,6 +679,11 @@ func run(sc Scenario, dir string) {
 	}()
 	r.dhtPeer = r.lst["dhtp"].Addr
 	trk, err := vh.StartHTTPTracker(nil, "trk", func(q vh.AnnReq) vh.AnnReply {
+		if q.InfoHash != hex.EncodeToString(r.tor.InfoHash[:]) {
+			// not our torrent: a late announce of a session of another harness process whose tracker had this port
+			T.Emit(vh.Ev{"ev": "stray", "what": "tracker-request"})
+			return vh.AnnReply{Failure: "unknown torrent"}
+		}
 		r.mu.Lock()
 		if r.t1ID == "" {
 			r.t1ID = q.PeerID
